@@ -5,7 +5,7 @@ the database in a scripted order:
 
   S  PoolScheduler.schedule_loop_body for pool 'standard' (real fair share, real SELECTs, real driver.job.schedule_job incl. job_config)
   R  Canceller.cancel_cancelled_ready_jobs_loop_body      U  Canceller.cancel_cancelled_running_jobs_loop_body
-  O  Canceller.cancel_orphaned_attempts_loop_body
+  O  Canceller.cancel_orphaned_attempts_loop_body      K  Canceller.cancel_cancelled_creating_jobs_loop_body
   W<outcome>  a worker: one Running job reports job_started (maybe) and job_complete with the outcome (real mark_job_started / complete)
   D  a worker reports the completion of some job twice / late (duplicate of the last report)
   F  fault: the instance with most running jobs is deactivated (real Instance.deactivate) and replaced by a fresh active one
@@ -13,8 +13,8 @@ the database in a scripted order:
   P  a scheduler pass (as S) during which the first instance a job is POSTed to is preempted while the request is in flight
   Q  a scheduler pass (as S) during which the worker's job_started report of the attempt being scheduled is processed while the POST is
      in flight (real mark_job_started), before CALL schedule_job
-  J  job-private path for every runnable Ready job-private job: pending instance, real mark_job_creating, activate, schedule_job;
-     Jtimeout = the instance is deactivated (activation_timeout) while still pending, right after mark_job_creating
+  J  the job-private manager: REAL JobPrivateInstanceManager.create_instances_loop_body (only the VM creation is faked), the new
+     instances activate, REAL schedule_jobs_loop_body; Jtimeout = the new instances are deactivated (activation_timeout) while pending
   X  a second attempt id of a Running job reports job_started from another instance (real mark_job_started): an orphan attempt for loop O
   L  late canceller message: real driver.job.unschedule_job for the attempt whose completion was reported last
 
@@ -81,9 +81,46 @@ class Actors:
         self.preempted_in_flight = 0
         self.started_in_flight = 0
         self.jp_timeouts = 0
+        self._jpm = None
+        self.jp_created: List[int] = []
         self.jp_scheduled = 0
         self.next_att = 500
         self.errors: List[str] = []
+
+    def job_private_manager(self):
+        if self._jpm is not None:
+            return self._jpm
+        import asyncio
+        from batch.driver.instance_collection.job_private import JobPrivateInstanceManager
+        from batch.utils import ExceededSharesCounter
+        from ..minisql import batchapp
+        w = self.w
+        m = object.__new__(JobPrivateInstanceManager)     # __init__ wants a cloud resource manager and starts long-running tasks
+        m.app = w.app
+        m.db = w.gdb
+        m.name = 'job-private'
+        m.cloud = 'gcp'
+        m.async_worker_pool = w.app['async_worker_pool']
+        m.exceeded_shares_counter = ExceededSharesCounter()
+        m.scheduler_state_changed = asyncio.Event()
+        m.inst_coll_manager = types.SimpleNamespace(regions=['us-central1'])
+        m.max_new_instances_per_autoscaler_loop = 10
+        m.autoscaler_loop_period_secs = 0
+        m.name_instance = w.instances
+        m.max_instances_to_create = lambda: 50
+
+        async def create_instance(machine_spec, regions):
+            # stands for CloudResourceManager.create_vm + Instance.create: the real Instance.create runs, no VM
+            self.next_inst += 1
+            n = self.next_inst
+            cores = int(str(machine_spec['machine_type']).rsplit('-', 1)[-1])
+            inst = await batchapp.create_instance(w.app, f'inst{n}', inst_coll='job-private', cores=cores)
+            w.instances[f'inst{n}'] = inst
+            self.jp_created.append(n)
+            return inst, []
+        m.create_instance = create_instance
+        self._jpm = m
+        return m
 
     def view(self) -> View:
         T = self.w.db.tables
@@ -109,9 +146,15 @@ class Actors:
         elif k == 'R':
             w.run(self._safe('cancel-ready', self.canceller.cancel_cancelled_ready_jobs_loop_body()))
         elif k == 'U':
+            v0 = self.view()
+            rj = [j for j in v0.jobs.values() if j['state'] == 'Running' and not j['always_run']]
+            if any(v0.marked(j) for j in rj) and any(not v0.marked(j) for j in rj):
+                self.u_with_outsiders = getattr(self, 'u_with_outsiders', 0) + 1
             w.run(self._safe('cancel-running', self.canceller.cancel_cancelled_running_jobs_loop_body()))
         elif k == 'O':
             w.run(self._safe('orphans', self.canceller.cancel_orphaned_attempts_loop_body()))
+        elif k == 'K':
+            w.run(self._safe('cancel-creating', self.canceller.cancel_cancelled_creating_jobs_loop_body()))
         elif k == 'W':
             rj = self.running_jobs()
             if rj:
@@ -194,28 +237,22 @@ class Actors:
             if fired:
                 self.started_in_flight += 1
         elif k == 'J':
-            # the job-private path for every Ready, runnable job-private job of a running group: a fresh job-private instance, the real
-            # mark_job_creating on the pending instance, activation, schedule_job (a<sub> = stop after that step: a = activation never
-            # happens and the instance times out, i.e. it is deactivated while still pending)
-            T = w.db.tables
-            gstate = {(g['batch_id'], g['job_group_id']): g['state'] for g in T['job_groups']}
-            v = self.view()
-            for j in list(T['jobs']):
-                if j['state'] == 'Ready' and j['inst_coll'] == 'job-private' and gstate.get((j['batch_id'], j['job_group_id'])) == 'running' \
-                        and (j['always_run'] or not v.marked(j)):
-                    self.next_inst += 1
-                    n, att = self.next_inst, self.next_att
-                    self.next_att += 1
-                    cores = max(1000, j['cores_mcpu'])
-                    w.apply(f'newInstance {n} {cores} 0')
-                    w.apply(f'creating {j["batch_id"]} {j["job_id"]} {att} {n} {self.ts} 0')
-                    if a[1:] == 'timeout':
-                        w.apply(f'deactivate {n} activation_timeout {self.ts + 1} 0')
-                        self.jp_timeouts += 1
-                        continue
+            # the job-private manager: REAL create_instances_loop_body (fair share, its SELECTs of Ready jobs, mark_job_creating on the new
+            # pending instance; only the cloud call that creates the VM is replaced), the new instances activate (Jtimeout: they are
+            # deactivated while still pending = activation timeout), then the REAL schedule_jobs_loop_body (-> driver.job.schedule_job)
+            m = self.job_private_manager()
+            self.jp_created = []
+            w.run(self._safe('jp-create-instances', m.create_instances_loop_body()))
+            for n in self.jp_created:
+                if a[1:] == 'timeout':
+                    w.apply(f'deactivate {n} activation_timeout {self.ts + 1} 0')
+                    self.jp_timeouts += 1
+                else:
                     w.apply(f'activate {n}')
-                    w.apply(f'schedule {j["batch_id"]} {j["job_id"]} {att} {n}')
-                    self.jp_scheduled += 1
+            before = sum(1 for j in w.db.tables['jobs'] if j['state'] == 'Running' and j['inst_coll'] == 'job-private')
+            w.run(self._safe('jp-schedule-jobs', m.schedule_jobs_loop_body()))
+            after = sum(1 for j in w.db.tables['jobs'] if j['state'] == 'Running' and j['inst_coll'] == 'job-private')
+            self.jp_scheduled += max(0, after - before)
         elif k == 'X':
             # a second attempt of a Running job reports job_started (schedule_job posted the job to a worker, its procedure call was lost and
             # the job was scheduled again): the real mark_job_started records it as a non-current attempt = an orphan for loop O
@@ -245,7 +282,7 @@ class Actors:
         """fair completion: every loop runs, every Running job finishes successfully; until nothing changes"""
         for r in range(max_rounds):
             before = repr(self.w.db.dump(["jobs", "attempts", "job_groups", "batches", "instances", "job_groups_cancelled"]))
-            for a in ('S', 'J', 'R', 'U', 'O'):
+            for a in ('S', 'J', 'R', 'K', 'U', 'O'):
                 self.step(a)
             for _ in range(len(self.running_jobs()) + 1):
                 self.step('WSuccess')
@@ -314,6 +351,26 @@ def dependencies(v: View) -> Optional[Tuple[str, str]]:
         if j['always_run'] and j['state'] == 'Cancelled':
             return ('always-run-job-cancelled', f'always_run job {k} was marked Cancelled: it must run whatever its parents\' outcomes '
                                                 f'(parents {[(p["job_id"], p["state"]) for p in ps]})')
+    return None
+
+
+def cancel_scope(w, p: View, v: View) -> Optional[Tuple[str, str]]:
+    """C07 for the canceller's loops (steps R, K, U): they touch only jobs that ARE cancelled — non-always_run jobs that carry the
+    cancelled mark or sit under a cancelled group; every other job row keeps its state and attempt"""
+    step = getattr(w, 'last_actor_step', '')
+    if step[:1] not in ('R', 'K', 'U'):
+        return None
+    for k, o in p.jobs.items():
+        j = v.jobs.get(k)
+        if j is None or (j['state'], j['attempt_id']) == (o['state'], o['attempt_id']):
+            continue
+        if o['state'] == 'Pending':
+            continue            # a child released because the canceller finished (cancelled) its last parent
+        if o['always_run'] or not p.marked(o):
+            where = 'an always_run job' if o['always_run'] else 'a job that is not cancelled (no cancelled ancestor group, cancelled = 0)'
+            return ('canceller-touched-job-outside-cancelled-subtree',
+                    f'canceller loop {step!r} moved job {k} — {where}, group {o["job_group_id"]} — from {o["state"]} to {j["state"]} '
+                    f'(cancelled groups: {sorted(p.cancelled)})')
     return None
 
 
@@ -390,6 +447,7 @@ def run_actor_case(repo, c, step_checks, final_checks=()):
         def checked_step(a):
             nonlocal fail
             before = act.view()
+            w.last_actor_step = a
             orig_step(a)
             after = act.view()
             if fail is None:
@@ -420,6 +478,7 @@ def run_actor_case(repo, c, step_checks, final_checks=()):
                         ('job-started-while-schedule_job-in-flight', act.started_in_flight > 0),
                         ('job-private-path', act.jp_scheduled > 0), ('job-private-activation-timeout', act.jp_timeouts > 0),
                         ('canceller-ready-loop-ran', 'R' in act.log),
+                        ('canceller-running-loop-with-running-jobs-outside-the-cancelled-subtree', getattr(act, 'u_with_outsiders', 0) > 0),
                         ('failed-parent', any(j['state'] in ('Failed', 'Error') and (j['batch_id'], j['job_id']) in act.view().children
                                               for j in w.db.tables['jobs'])),
                         ('always-run-child-of-failed-parent', any(
